@@ -617,6 +617,11 @@ func (g *gen) switchStmt(depth int, ctx bctx) *model.Stmt {
 		n = c.Dom + 3
 	}
 	hasDefault := r.P(c.PDefault)
+	if r.P(0.06) {
+		// a switch with nothing but a default case
+		n = 0
+		hasDefault = true
+	}
 	defPos := -1
 	if hasDefault {
 		defPos = r.Intn(n + 1)
